@@ -109,7 +109,8 @@ CHECKS.update({
              "are what-if constants and refuted. TLC exports all 84 (front-end, invalid-configuration class, package count) cases with "
              "the predicted outcome; each is executed on the real binaries (non-zero exit, message names the problem, no panic, no "
              "diagnostics). Recorded analyzer runs with an invalid configuration (sequential and parallel passes) are validated by "
-             "TraceAnalyzer.tla; packages with syntax, type, import and package-clause errors must not crash any front-end.",
+             "TraceAnalyzer.tla; packages with syntax, type, import and package-clause errors must not crash any front-end."
+             " One error class combines an unknown failOn value with the deprecated failOnError boolean (neither may mask the other).",
         design_ref="DESIGN.md section 6 C19, Appendix A.3",
         note="'Names the problem' is judged by a class keyword in the output.",
         technique="TLC case export + replay on the real binaries + analyzer trace validation",
@@ -187,7 +188,8 @@ CHECKS.update({
              "the seven numeric parameters and analysed at every threshold through Override (in process) and through the real "
              "go-critic and analysis binaries (selected by name, by tag and by enable-all); the three must agree with the exported "
              "predictions and with each other; boolean parameters must change the outcome on discriminating constructs on every "
-             "path; byte sizes quoted in messages are compared with types.Sizes (incl. same-named local types of different size).",
+             "path; byte sizes quoted in messages are compared with types.Sizes (incl. same-named local types of different size)."
+             " ParamsReconf.tla: a program embedding the analysis front-end re-configures it between runs of one process (UsedIsConfiguredNow; the what-if 'flag values copied once per process' is refuted); `vh analyze -seq` replays sequences of three configurations in one process (DisableCache, or the cached configuration dropped between runs) and every run must report what a process configured with that run's effective values from the start reports.",
         design_ref="DESIGN.md section 6 C14",
         note="ifElseChain / commentedOutCode: only monotone single-step behaviour is required; skipTestFuncs parameters uncovered. The sets of reported lines at neighbouring thresholds must be nested (monotonicity per diagnostic, not only per construct).",
         technique="TLA+ flow model + threshold table replayed on the three entry paths",
